@@ -1245,14 +1245,11 @@ class UCSReplication(MessagePassingComputation):
         max_agt = min(self.k_target - 1, len(tentative_agents))
         max_footprint = 0
         for selected in itertools.combinations(tentative_agents, max_agt):
-            try:
-                total_footprint = self.memoize_footprint[selected]
-            except KeyError:
-
-                total_footprint = sum(
-                    f for a, f in self._hosted_replicas.values() if a in selected
-                )
-                self.memoize_footprint[selected] = total_footprint
+            # No memoization here: the total depends on the replicas currently
+            # hosted by *this* agent, not only on the selected owners.
+            total_footprint = sum(
+                f for a, f in self._hosted_replicas.values() if a in selected
+            )
 
             max_footprint = max(total_footprint, max_footprint)
         return max_footprint
